@@ -67,6 +67,12 @@ CHECKS = {
         text="Real ACCKernelsTrans (where accepted) and ACCDataTrans on every consecutive statement range of a generated region family (partially/conditionally written arrays, write-then-read of different elements, calls, array sections, index arrays, early exits); FortranWriter computes the data-movement clauses, which are read back from the emitted text. The routine is executed symbolically twice: on the host store, and with a device store in which arrays not copied in start as fresh solver variables and only copyout/copy arrays are copied back. One z3 query per region decides equality of every host array; a further trace query classifies a violation as 'undefined device data read' or 'undefined device data copied back'. Counterexamples are replayed by writing the same store model out in Fortran and running original and emulation through gfortran.",
         note="Bounds: extents and trip counts <= 3/4; arrays only (scalars outside the claim, as the property says); statements between data/end data all run on the device store; programs = enumerated G-R family x all statement ranges. Trusted: fparser2, z3, fsym, the store model (DESIGN Appendix B), gfortran for replay.",
         ref="5/C13"),
+    "C16": dict(
+        level="model_checking", engine="crosshair",
+        technique="CrossHair symbolic execution (z3) of the real SymbolTable methods: inductive step with symbolic selectors for the names in the outer scope, nested scope and other table and for the operation's arguments",
+        text="For each symbol-table operation (new_symbol, next_available_name with shadowing/other_table, add, rename_symbol, lookup, merge, remove, find_or_create_tag) and each fixed part of the pre-state, CrossHair executes the real method with integer selectors as solver variables that choose the symbols' names from a pool with case variants and _N-suffixed names (a/A, a_1/A_1, work/Work_1, ...). It must confirm over all paths that afterwards every table is well-formed (normalised names unique, keys consistent, tags pointing into the table), that the operation's contract holds (a generated name clashes with nothing visible nor with the other table, lookup returns the innermost symbol, merge adds each symbol exactly once) and that a raising operation changed nothing. Counterexamples are re-run in CPython.",
+        note="One step from enumerated well-formed pre-states (<= 2 symbols per table, one tagged); histories are covered only through the inductive invariant. Quick: 16 conditions (one round on 16 cores, about 600 paths each); thorough: 56 conditions. 'Not confirmed' counts as inconclusive. This is the weakest claim: CrossHair realises the selectors when they index the name pool, so a confirmation is an exhaustive path enumeration driven by the solver. Trusted: CrossHair, z3.",
+        ref="5/C16"),
     "C17": dict(
         level="other", engine="verdict-oracle",
         technique="SMT oracle on analysis verdicts: each positive verdict of the real SymbolicMaths/distance code is refuted or confirmed by z3 over all integer valuations",
